@@ -56,12 +56,16 @@ type ExecDouble struct {
 	AbortErr  error
 	// blockCalls makes every ExecuteTxs / SetFinal call wait until its context ends (see BlockCalls)
 	blockCalls   atomic.Bool
+	blockFinal   atomic.Bool
 	inFlightExec atomic.Int64
 	inFlightFin  atomic.Int64
 }
 
 // BlockCalls switches the "remote client hangs until the caller gives up" mode on or off.
 func (e *ExecDouble) BlockCalls(on bool) { e.blockCalls.Store(on) }
+
+// BlockFinal makes only SetFinal calls hang until their context ends.
+func (e *ExecDouble) BlockFinal(on bool) { e.blockFinal.Store(on) }
 
 // InFlight returns how many ExecuteTxs and SetFinal calls are currently waiting inside the double.
 func (e *ExecDouble) InFlight() (exec, final int64) {
@@ -78,7 +82,7 @@ func (e *ExecDouble) slowCall(ctx context.Context, final bool) error {
 	defer ctr.Add(-1)
 	var wait <-chan time.Time
 	switch {
-	case e.blockCalls.Load():
+	case e.blockCalls.Load() || (final && e.blockFinal.Load()):
 		wait = nil // only the context ends the call
 	case e.CallDelay <= 0:
 		return nil
